@@ -61,14 +61,23 @@ def floors(tier):
     return {"distinct_nontrivial": 300, "cls:decl:let": 300, "cls:decl:from": 300, "cls:decl:from_kw": 200, "cls:mixed_types": 200,
             "cls:round:partial": 500, "cls:round:exhausted": 300, "cls:caching_off": 200, "pull_checks": 3000,
             "cls:no_condition": 100, "cls:round:iterator_kept_alive": 300, "cls:iterator_without_any_instance_of_the_type": 100,
-            "cls:second_variable:operand": 100, "cls:second_variable:lead_an": 100, "cls:second_variable:lead_forall": 100}
+            "cls:second_variable:operand": 100, "cls:second_variable:lead_an": 100, "cls:second_variable:lead_forall": 100, "cls:iterator_of_60_to_300_elements": 400}
 
 
 def cases(spec, ctx):
     for i in range(spec["n"]):
         rng = ctx.rng(spec["sub"], i)
         world = D.random_world(rng, np_=(4, 8), nq=(1, 2))
+        long_iterator = i % 25 == 7
+        if long_iterator:
+            # SIZE: a one-shot iterator of 60-300 elements, results asked for deep into it (read-ahead, batching and bounded caches
+            # start to matter), several partial and full evaluations
+            world = D.random_world(rng, np_=(60, 300), nq=(1, 2), hi=6)
         cond = C.gen_cond(rng, ["P"], rng.choice([0, 1, 2, 2, 3, 4])) if rng.random() > 0.12 else None
+        if long_iterator and rng.random() < 0.6:
+            A_ = lambda f: ["v", 0, [["a", f]]]
+            cond = ["and", ["cmp", rng.choice(["!=", "<", ">="]), A_("a"), ["lit", rng.randint(2, 5)]],
+                    ["cmp", rng.choice(["<", "!=", "<="]), A_("b"), rng.choice([A_("a"), ["lit", rng.randint(3, 6)]])]]
         n = len(world["P"])
         mixed = sorted(rng.sample(range(n + 1), rng.randint(1, 2))) if rng.random() < 0.4 else []
         rounds = [[rng.randint(0, n + 1), rng.choice(["close", "close", "drop", "exhaust", "keep"])] for _ in range(rng.randint(2, 5))]
@@ -76,7 +85,7 @@ def cases(spec, ctx):
         kw = {}
         if decl == "from_kw":       # T(From(it), field=constant, ...): constant field constraints in the term itself
             kw = {f: rng.randint(1, 3) for f in rng.sample(["a", "b"], rng.randint(1, 2))}
-        yield {"world": world, "cond": cond, "decl": decl, "kw": kw, "mixed": mixed, "rounds": rounds,
+        yield {"world": world, "cond": cond, "decl": decl, "kw": kw, "mixed": mixed, "rounds": rounds, "long_iterator": long_iterator,
                "caching": rng.random() < 0.7, "form": rng.choice(["entity", "entity", "direct"]),
                # the iterator may hold no object of the variable's type at all (such objects exist elsewhere in the process)
                "no_instance": rng.random() < 0.06,
@@ -95,6 +104,8 @@ def check_case(case, ctx):
     items = list(ps)
     for pos in case["mixed"]:
         items.insert(pos, Other())
+    if case.get("long_iterator"):
+        ctx.cls("cls:iterator_of_60_to_300_elements")
     if case.get("no_instance"):
         items = [Other() for _ in items]
         ctx.cls("cls:iterator_without_any_instance_of_the_type")
